@@ -210,6 +210,63 @@ def run_lines_sharded(exe, lines, shards=16, timeout=3600, env=None):
     return flat, rc, "\n".join(errs)
 
 
+def run_lines_resilient(exe, lines, env=None, per_line_s=0.02, base_s=20.0):
+    """like run_lines, but a process death (abort, stack overflow, OOM kill) or a hang is attributed to the
+    line being processed (`abort` / `timeout`) and the remaining lines are run in a fresh process"""
+    out = []
+    i = 0
+    n = len(lines)
+    restarts = 0
+    while i < n:
+        chunk = lines[i:]
+        data = "\n".join(chunk) + "\n"
+        e = dict(os.environ)
+        if env:
+            e.update(env)
+        try:
+            r = subprocess.run([exe], input=data, capture_output=True, text=True, env=e,
+                               timeout=base_s + per_line_s * len(chunk))
+            got = r.stdout.split("\n")
+            if got and got[-1] == "":
+                got.pop()
+            verdict = "abort"
+        except subprocess.TimeoutExpired as ex:
+            so = ex.stdout or ""
+            if isinstance(so, bytes):
+                so = so.decode(errors="replace")
+            got = so.split("\n")
+            # the last element may be a partial line
+            if got:
+                got.pop()
+            verdict = "timeout"
+        out.extend(got[: len(chunk)])
+        i += min(len(got), len(chunk))
+        if i < n and len(got) < len(chunk):
+            out.append(verdict)
+            i += 1
+            restarts += 1
+            if restarts > 200:
+                out.extend(["not-run"] * (n - i))
+                break
+    return out
+
+
+def run_lines_resilient_sharded(exe, lines, shards=16, env=None):
+    import concurrent.futures
+    n = len(lines)
+    if n == 0:
+        return []
+    shards = max(1, min(shards, n))
+    step = (n + shards - 1) // shards
+    parts = [lines[i:i + step] for i in range(0, n, step)]
+    with concurrent.futures.ThreadPoolExecutor(max_workers=len(parts)) as ex:
+        res = list(ex.map(lambda p: run_lines_resilient(exe, p, env), parts))
+    flat = []
+    for r in res:
+        flat.extend(r)
+    return flat
+
+
 class Lcg:
     """the one PRNG state every random choice derives from"""
 
